@@ -2,7 +2,7 @@
 import wlcheck
 
 PID = 'C06'
-TAGS = set('snapget,snapiter,step'.split(','))
+TAGS = set('snapget,snapiter,step,droploop,csnap'.split(','))
 THEOREMS = [
     'Lcdb.C06.snapshot_view_stable',
     'Lcdb.C06.background_preserves_view',
@@ -12,9 +12,22 @@ THEOREMS = [
     'Lcdb.C06.compact_preserves_view_above',
     'Lcdb.C06.step_preserves_noSeqTies',
     'Lcdb.C06.history_refines',
+    'Lcdb.Compaction.mergeInputs_sorted_perm',
+    'Lcdb.Compaction.mergeInputs_eq_mergedRun',
+    'Lcdb.Compaction.inputIter_walks_mergeInputs',
+    'Lcdb.Compaction.dropLoop_sublist',
+    'Lcdb.Compaction.dropLoopPtr_eq_dropLoop',
+    'Lcdb.Compaction.expectedOutput_eq_spec',
+    'Lcdb.Compaction.dropLoop_sameAnswer',
+    'Lcdb.Compaction.dropLoop_not_newer',
+    'Lcdb.Compaction.expectedOutput_sameAnswer',
+    'Lcdb.Compaction.expectedOutput_meets_contract',
+    'Lcdb.Compaction.mechanism_stepOk',
+    'Lcdb.Compaction.mechanism_preserves_view',
+    'Lcdb.Compaction.dropLoop_not_safe_below_smallest',
 ]
-IMPORTS = ['LcdbModel.Props.C06']
-TARGETS = ['LcdbModel.Props.C06']
+IMPORTS = ['LcdbModel.Props.CompactionProps', 'LcdbModel.Props.C06']
+TARGETS = ['LcdbModel.Props.CompactionProps', 'LcdbModel.Props.C06']
 
 
 def run(tier):
